@@ -316,7 +316,7 @@ pub fn program_strategy(max_len: usize, max_ops: usize) -> BoxedStrategy<Program
 
 pub fn run(ctx: &Ctx) {
     let t = ctx.tier;
-    let n = t.pick(20_000u64, 1_000_000);
+    let n = t.pick(40_000u64, 1_000_000);
     ctx.generated("programs-short-operands", "program", n, "operands of 1..40 digits, programs of 1..40 steps", || program_strategy(40, 40), check_program);
     ctx.generated("programs-long-operands", "program", n / 4, "operands of 1..400 digits, programs of 1..25 steps", || program_strategy(400, 25), check_program);
 }
